@@ -296,6 +296,20 @@ func (gi *ginfo) parked() bool {
 	if gi.state == "chan receive" && len(gi.funcs) > 0 && strings.Contains(gi.funcs[0], "gocql.(*Conn).exec") {
 		return false
 	}
+	// a goroutine that allocates during a GC cycle can be made to help ("GC assist wait" / "GC assist marking"):
+	// it is runnable work of the program, not a parked GC worker (seen with the 1 MiB frames)
+	if strings.HasPrefix(gi.state, "GC assist") {
+		return false
+	}
+	if strings.HasPrefix(gi.state, "GC ") && (gi.has("gocql.") || gi.has("main.") || gi.has("verifharness/")) {
+		return false // any other GC-related wait of a goroutine of the program (GC workers have runtime frames only)
+	}
+	// "semacquire" is also the state of a goroutine whose allocation starts a GC cycle and waits for the world
+	// semaphore that this very snapshot holds (runtime frames are elided: its top frame is the allocating
+	// function). Only a semaphore wait entered through package sync / internal/poll is a parked goroutine.
+	if strings.HasPrefix(gi.state, "semacquire") {
+		return len(gi.funcs) > 0 && (strings.HasPrefix(gi.funcs[0], "sync.") || strings.HasPrefix(gi.funcs[0], "internal/poll."))
+	}
 	for _, p := range parkedStates {
 		if strings.HasPrefix(gi.state, p) {
 			return true
